@@ -39,7 +39,9 @@ RDEF_EXCEPTIONS = {
     ('_apply_event', 'dest'): "arm commented '# XXX: This should crash': demes admix/merge events always create a NEW child deme, so `child in pop_ids` "
                               'cannot hold for a resolved graph; the arm is unreachable and its crash is intended',
 }
-RNAME_EXCEPTIONS = {('_apply_event', 'sources'): RDEF_EXCEPTIONS[('_apply_event', 'dest')]}
+RNAME_EXCEPTIONS = {('_apply_event', 'sources'): RDEF_EXCEPTIONS[('_apply_event', 'dest')],
+                    # (UnboundLocalError is a NameError: the intended crash of that arm is the same whether `dest` is a never-bound local or no name at all)
+                    ('_apply_event', 'dest'): RDEF_EXCEPTIONS[('_apply_event', 'dest')]}
 
 
 def _last(n):
@@ -756,13 +758,17 @@ def check_reorder(rep, prog, m):
     cnt = 0
     for u in uses:
         par = getattr(u, '_parent', None)
-        if isinstance(par, ast.Attribute) and par.attr == 'add':
+        if isinstance(par, ast.Attribute) and par.attr in ('add', 'update', 'discard', 'remove'):
+            continue            # the set being built
+        if isinstance(par, ast.Compare) and any(isinstance(o, (ast.In, ast.NotIn)) for o in par.ops) and u in par.comparators:
+            continue            # membership does not depend on the order
+        if isinstance(par, ast.Call) and dotted(par.func) == 'len':
             continue
         cnt += 1
         g2 = getattr(par, '_parent', None)
         fenced = (isinstance(par, ast.Call) and dotted(par.func) == 'sorted') or (isinstance(par, ast.Call) and dotted(par.func) == 'list' and isinstance(g2, ast.Call) and dotted(g2.func) == 'sorted')
         okb = okb and fenced
-    rep.ob('R-ORD', '_get_demographic_events break_points', okb and cnt >= 2, '%d ordered uses of the break-point set, all through sorted()' % cnt, rel, ge.lineno, what='set of break points consumed only through sorted()')
+    rep.ob('R-ORD', '_get_demographic_events break_points', okb and cnt >= 1, '%d ordered uses of the break-point set, all through sorted()' % cnt, rel, ge.lineno, what='set of break points consumed only through sorted()')
 
 
 def check_output_names(rep, prog):
@@ -894,12 +900,21 @@ def check_shift_deme_time(rep, prog):
 def run(rep, prog, tier):
     m = prog.mod(DM)
     rep.saw_file(m.rel)
+    from sa import alpha as _alpha
     for modname in (DM, DU, DI):
         mm = prog.mod(modname)
         rep.saw_file(mm.rel)
+        known_f = _alpha.load_table().get('__params__', {}).get(mm.rel)
         for q, fn in mm.funcs.items():
-            generic.rule_name(rep, prog, mm, fn, exceptions=RNAME_EXCEPTIONS)
-            generic.rule_def(rep, mm, fn, exceptions=RDEF_EXCEPTIONS)
+            exn, exd = RNAME_EXCEPTIONS, RDEF_EXCEPTIONS
+            if known_f is not None and q not in known_f:
+                # a helper the confirmed tree does not have may hold code moved out of an excepted function: the same reasons apply
+                exn = dict(RNAME_EXCEPTIONS)
+                exn.update({(q, k[1]): v for k, v in list(RNAME_EXCEPTIONS.items()) + list(RDEF_EXCEPTIONS.items())})
+                exd = dict(RDEF_EXCEPTIONS)
+                exd.update({(q, k[1]): v for k, v in RDEF_EXCEPTIONS.items()})
+            generic.rule_name(rep, prog, mm, fn, exceptions=exn)
+            generic.rule_def(rep, mm, fn, exceptions=exd)
             generic.rule_closure(rep, mm, fn)
             generic.rule_ret(rep, mm, fn)
             generic.rule_sig(rep, prog, mm, fn)
